@@ -194,8 +194,40 @@ type Query struct {
 	ForceFresh            bool
 }
 
+// checkIdentifierQuotes makes sure that every backtick-quoted identifier is
+// terminated. The tokenizer of sqlparser never returns on input that ends
+// inside of one (it keeps growing its buffer until the process runs out of
+// memory).
+func checkIdentifierQuotes(sql string) error {
+	var quote byte
+	for i := 0; i < len(sql); i++ {
+		c := sql[i]
+		switch {
+		case quote == 0:
+			if c == '\'' || c == '"' || c == '`' {
+				quote = c
+			}
+		case quote == '`':
+			if c == '`' {
+				quote = 0
+			}
+		case c == '\\':
+			i++
+		case c == quote:
+			quote = 0
+		}
+	}
+	if quote == '`' {
+		return fmt.Errorf("Error parsing %v: unterminated quoted identifier", sql)
+	}
+	return nil
+}
+
 // TableFor returns the table in the FROM clause of this query
 func TableFor(sql string) (string, error) {
+	if err := checkIdentifierQuotes(sql); err != nil {
+		return "", err
+	}
 	parsed, err := sqlparser.Parse(sql)
 	if err != nil {
 		return "", err
@@ -212,6 +244,9 @@ func TableFor(sql string) (string, error) {
 
 // Parse parses a SQL statement and returns a corresponding *Query object.
 func Parse(sql string) (*Query, error) {
+	if err := checkIdentifierQuotes(sql); err != nil {
+		return nil, err
+	}
 	parsed, err := sqlparser.Parse(sql)
 	if err != nil {
 		return nil, fmt.Errorf("Error parsing %v: %v", sql, err)
